@@ -7,7 +7,9 @@ import itertools
 import json
 import os
 
+from checks import cov_merge as cm
 from checks import merge_common as mc
+from checks import pairwise
 from vlib import core
 
 THEOREMS = ["C03_default_of_spec", "C03_resolution", "C03_default_of_total", "C03_compute_partition",
@@ -189,6 +191,21 @@ def run(ctx):
     sub = [kp for kp in projs if kp[0] != "exhaustive"] + [kp for kp in projs if kp[0] == "exhaustive"][:60]
     metas_s, codes_s = mc.evaluate(ctx, exe_s, sub, True, "s", "check_C03s")
     metas, codes = metas + metas_s, codes + codes_s
+    # pairwise coverage of the quantifier's dimensions; directed cases fill the empty feasible cells
+    table = pairwise.Table(cm.C03_DIMS, cm.c03_infeasible)
+    pairwise.add_all(table, [o for m in metas for o in cm.c03_tags(m["project"], "suppress" if m["suppress"] else "normal")])
+    gaps_before = ["%s=%s x %s=%s" % c for c in table.gaps()]
+    directed = pairwise.greedy(table, ctx.rng, cm.c03_draw, lambda sc: cm.c03_build(ctx.rng, sc),
+                               lambda p: cm.c03_tags(p, "normal") + cm.c03_tags(p, "suppress"))
+    if directed:
+        dp = [("directed", p) for p in directed]
+        m1, c1 = mc.evaluate(ctx, exe, dp, False, "dn", "check_C03s")
+        m2, c2 = mc.evaluate(ctx, exe_s, dp, True, "ds", "check_C03s")
+        metas, codes = metas + m1 + m2, codes + c1 + c2
+    pw = table.report()
+    pw["zero_cells_before_directed_cases"] = gaps_before[:80]
+    pw["zero_cells_before_directed_cases_count"] = len(gaps_before)
+    pw["directed_cases"] = len(directed)
     bad = [m for m, c in zip(metas, codes) if c == 3]
     dis = [m for m, c in zip(metas, codes) if c == 2]
     skipped = [m for m, c in zip(metas, codes) if c == 1]
@@ -231,7 +248,7 @@ def run(ctx):
         "samples": [{"project": m["project"], "impl": m["impl"]["raw"][:600]} for m in metas[:2] + metas[-2:]],
         "traces_validated_against_impl": len(metas), "disagreements": len(dis), "spec_failures_on_impl": len(bad),
         "skipped_outside_model": len(skipped), "panics": len(panics), "error_results": sum(1 for m in metas if m["impl"].get("kind") not in ("ok", "panic")),
-        "input_distribution": hist, "audit_problems": problems,
+        "input_distribution": hist, "audit_problems": problems, "pairwise": pw,
     }, assumptions=[
         "leaf values are opaque: written as the literal v<id> (every 7th with an interpolated variable), identified in the "
         "harness output by that literal",
